@@ -121,6 +121,21 @@ def reactionHolds (kind : String) (lr : Float) (st : St Float) (status : String)
     | [] => (false, "frame")
   | _ => (true, "-")
 
+/-- Correspondence of two states: everything that is merely transported (individuals, counters,
+remembered bests, stack shape) exactly; energies produced by arithmetic (kinetic energies, buffer)
+up to `1e-9` relative to the total energy in play — the association order of the energy sums and
+`E·(1−d)` vs `E − E·d` are not part of the property. -/
+def stClose (scale : Float) (a b : St Float) : Bool :=
+  let cl := fun (x y : Float) => x == y || (x - y).abs ≤ 1e-9 * scale
+  Sexp.beq (.list (a.stack.map popS)) (.list (b.stack.map popS)) &&
+  a.mols.length == b.mols.length &&
+  (List.zip a.mols b.mols).all (fun (m, n) =>
+    m.numHit == n.numHit && m.minHit == n.minHit && Sexp.beq (indS m.best) (indS n.best) && cl m.ke n.ke) &&
+  cl a.buffer b.buffer
+
+def energyScale (st : St Float) : Float :=
+  sumAbs ((st.stack.take 3).flatten.map (·.obj)) + sumAbs (st.mols.map (·.ke)) + st.buffer.abs
+
 def critS : Crit → Sexp
   | .val b => .list [.atom "val", Sexp.ofBool b] | .err => .atom "err" | .panic => .atom "panic"
 
@@ -151,7 +166,11 @@ def reactionCase (kind : String) (args : List Sexp) (implOut : Sexp) : Option Ve
     let implCore := Sexp.list [.atom status, .list (.atom "stack" :: (← field "stack" rest)),
                                .list (.atom "mols" :: (← field "mols" rest)), .list (.atom "buffer" :: (← field "buffer" rest))]
     let usedOk := used ≥ r.draws && ((used == 0) == (r.draws == 0))
-    let agree := Sexp.beq model implCore && legal && usedOk
+    let agreeState := Sexp.beq model implCore ||
+      (statusS ms |>.beq (.atom status)) && (match st? rest with
+        | some st' => stClose (energyScale st) mst st'
+        | none => false)
+    let agree := agreeState && legal && usedOk
     let (holds, cls) := match st? rest with
       | some st' => reactionHolds kind lr st status st'
       | none => (status == "panic" && !wellFormed kind lr st, "unreadable")
